@@ -124,6 +124,11 @@ pub fn bundle(a: &RawI, salt: usize) -> String {
         let r = guarded(|| ai.select_rows(&keep));
         parts.push(format!("c_select_rows A {} {}", cblist(&keep), out_raw(r.map(|t| Some(RawI::of_i(&t))))));
     }
+    // select_rows keeping every row and keeping none
+    for keep in [vec![true; m], vec![false; m]] {
+        let r = guarded(|| ai.select_rows(&keep));
+        parts.push(format!("c_select_rows A {} {}", cblist(&keep), out_raw(r.map(|t| Some(RawI::of_i(&t))))));
+    }
     // get_entry everywhere
     for i in 0..m {
         for j in 0..n {
@@ -137,6 +142,27 @@ pub fn bundle(a: &RawI, salt: usize) -> String {
         for (k, v) in [(0usize, 0i64), (1, 7), (2, -4)] {
             let i = (salt + k) % m;
             let j = (salt / 2 + 2 * k) % n;
+            let r = guarded(|| { let mut b = ai.clone(); b.set_entry((i, j), v); b });
+            parts.push(format!("c_set_entry A {} {} {} {}", cn(i), cn(j), cz(v), out_raw(r.map(|t| Some(RawI::of_i(&t))))));
+        }
+    }
+    // set_entry on the first and last absent positions (insertion; a zero value must not be
+    // inserted) and on the first and last stored positions (overwrite, also with zero)
+    {
+        let mut absent: Vec<(usize, usize)> = vec![];
+        let mut present: Vec<(usize, usize)> = vec![];
+        for j in 0..n {
+            for i in 0..m {
+                if ai.get_entry((i, j)).is_some() { present.push((i, j)); } else { absent.push((i, j)); }
+            }
+        }
+        let mut picks: Vec<((usize, usize), i64)> = vec![];
+        if let Some(&p) = absent.first() { picks.push((p, 5)); picks.push((p, 0)); }
+        if let Some(&p) = absent.last() { picks.push((p, -3)); }
+        if absent.len() > 2 { picks.push((absent[(salt / 3) % absent.len()], 6)); }
+        if let Some(&p) = present.first() { picks.push((p, 0)); picks.push((p, 9)); }
+        if let Some(&p) = present.last() { picks.push((p, -8)); }
+        for ((i, j), v) in picks {
             let r = guarded(|| { let mut b = ai.clone(); b.set_entry((i, j), v); b });
             parts.push(format!("c_set_entry A {} {} {} {}", cn(i), cn(j), cz(v), out_raw(r.map(|t| Some(RawI::of_i(&t))))));
         }
@@ -183,6 +209,13 @@ pub fn bundle(a: &RawI, salt: usize) -> String {
     parts.push(match r { Some(v) => format!("c_col_norms A {}", iv_or_bad(&v)), None => "1%N".into() });
     let r = guarded(|| { let mut v = vec![9.0; m]; af.row_norms(&mut v); v });
     parts.push(match r { Some(v) => format!("c_row_norms A {}", iv_or_bad(&v)), None => "1%N".into() });
+    // the *_no_reset variants from a non-negative start vector
+    let s_n: Vec<i64> = test_vec(n, s + 11).iter().map(|x| x.abs()).collect();
+    let s_m: Vec<i64> = test_vec(m, s + 12).iter().map(|x| x.abs()).collect();
+    let r = guarded(|| { let mut v = fv(&s_n); af.col_norms_no_reset(&mut v); v });
+    parts.push(match r { Some(v) => format!("c_col_norms_from A {} {}", czlist(&s_n), iv_or_bad(&v)), None => "1%N".into() });
+    let r = guarded(|| { let mut v = fv(&s_m); af.row_norms_no_reset(&mut v); v });
+    parts.push(match r { Some(v) => format!("c_row_norms_from A {} {}", czlist(&s_m), iv_or_bad(&v)), None => "1%N".into() });
     // square-only: symmetric products on the upper triangle, quad_form on A itself too
     if m == n {
         if let Some(tu) = tu {
@@ -197,6 +230,8 @@ pub fn bundle(a: &RawI, salt: usize) -> String {
             parts.push(match r.and_then(f2i) { Some(q) => format!("c_quad_form {} {} {} (Out {})", tcoq, czlist(&y), czlist(&x), cz(q)), None => "1%N".into() });
             let r = guarded(|| { let mut v = vec![9.0; n]; tf.col_norms_sym(&mut v); v });
             parts.push(match r { Some(v) => format!("c_col_norms_sym {} {}", tcoq, iv_or_bad(&v)), None => "1%N".into() });
+            let r = guarded(|| { let mut v = fv(&s_n); tf.col_norms_sym_no_reset(&mut v); v });
+            parts.push(match r { Some(v) => format!("c_col_norms_sym_from {} {} {}", tcoq, czlist(&s_n), iv_or_bad(&v)), None => "1%N".into() });
         }
         let x = test_vec(n, s + 9);
         let y = test_vec(n, s + 10);
@@ -246,6 +281,27 @@ pub fn concat_case(ms: &[RawI], salt: usize) -> String {
         cat_out(guarded(|| CscMatrix::hvcat(&rowrefs)))
     ));
     format!("(maxl [{}])", parts.join("; "))
+}
+
+/// General block layouts: hvcat of a grid of blocks given row-major (any number of block rows
+/// and columns, possibly ragged or shape-inconsistent) and blockdiag of all its blocks.
+pub fn grid_case(rows: &[Vec<RawI>]) -> String {
+    let fs: Vec<Vec<CscMatrix<f64>>> = rows.iter().map(|r| r.iter().map(|b| b.csc_f()).collect()).collect();
+    let refs: Vec<Vec<&CscMatrix<f64>>> = fs.iter().map(|r| r.iter().collect()).collect();
+    let rowrefs: Vec<&[&CscMatrix<f64>]> = refs.iter().map(|r| r.as_slice()).collect();
+    let mut parts = vec![];
+    parts.push(format!(
+        "c_hvcat {} {}",
+        clist(rows, |r| clist(r, |x| x.coq())),
+        cat_out(guarded(|| CscMatrix::hvcat(&rowrefs)))
+    ));
+    let flat: Vec<&CscMatrix<f64>> = refs.iter().flat_map(|r| r.iter().copied()).collect();
+    let flat_raw: Vec<&RawI> = rows.iter().flat_map(|r| r.iter()).collect();
+    parts.push(format!("c_blockdiag {} {}", clist(&flat_raw, |r| r.coq()), cat_out(guarded(|| CscMatrix::blockdiag(&flat)))));
+    format!("(maxl [{}])", parts.join("; "))
+}
+fn grid_json(rows: &[Vec<RawI>]) -> Value {
+    json!({"rows": rows.iter().map(|r| r.iter().map(|b| b.json()).collect::<Vec<_>>()).collect::<Vec<_>>()})
 }
 
 pub fn triplet_case(m: usize, n: usize, i: &[usize], j: &[usize], v: &[i64]) -> String {
@@ -312,8 +368,9 @@ pub fn generate(sink: &mut CaseSink, seed: u64, thorough: bool) -> Stats {
         (0, 0, &v3, 1), (0, 2, &v3, 1), (2, 0, &v3, 1), (1, 1, &v4, 1), (1, 2, &v4, 1), (2, 1, &v4, 1), (1, 3, &v4, 1), (3, 1, &v4, 1),
         (2, 2, &v4, 1), (2, 3, &v3, 1), (3, 2, &v3, 1),
     ];
-    // 3x3 over {absent,1,-1}: complete in thorough, a 1-in-9 lattice sample in quick
-    shapes.push((3, 3, &v3, if thorough { 1 } else { 9 }));
+    // 3x3 over {absent,1,-1}: complete (19 683 matrices) in thorough; in quick every 4th code
+    // (4 921 matrices; the stride is coprime to 3 so that every cell takes every value)
+    shapes.push((3, 3, &v3, if thorough { 1 } else { 4 }));
     if thorough {
         shapes.push((2, 3, &v4, 1));
         shapes.push((3, 2, &v4, 1));
@@ -352,7 +409,9 @@ pub fn generate(sink: &mut CaseSink, seed: u64, thorough: bool) -> Stats {
                 blocks.push(RawI::from_grid(&grid_from_code(code, m, n, &v3), m, n));
             }
         }
-        let stride = if thorough { 1 } else { 7 };
+        // 105 blocks, 11 025 ordered pairs; quick takes every 8th (coprime to 105, so both
+        // members of the pair range over all blocks)
+        let stride = if thorough { 1 } else { 8 };
         let mut idx = (seed % stride as u64) as usize;
         let nb = blocks.len();
         while idx < nb * nb {
@@ -375,6 +434,44 @@ pub fn generate(sink: &mut CaseSink, seed: u64, thorough: bool) -> Stats {
             let coq = concat_case(&bl, salt);
             sink.case("concat", json!({"blocks": bl.iter().map(|r| r.json()).collect::<Vec<_>>(), "salt": salt}), coq, &["random"]);
             bump("concat_quads");
+        }
+    }
+    // 3b. general block layouts: R x C grids (R, C <= 3) of blocks with per-row heights and
+    //     per-column widths in 0..=2; one in four is made inconsistent (one block reshaped, one
+    //     block dropped from a row, or a row emptied); plus the degenerate layouts
+    {
+        let per = if thorough { 150 } else { 14 };
+        for r in 1..=3usize {
+            for c in 1..=3usize {
+                for k in 0..per {
+                    let hs: Vec<usize> = (0..r).map(|_| rng.below(3)).collect();
+                    let ws: Vec<usize> = (0..c).map(|_| rng.below(3)).collect();
+                    let mut rows: Vec<Vec<RawI>> = (0..r)
+                        .map(|p| (0..c).map(|q| random_raw(&mut rng, hs[p], ws[q], 60, k % 5 == 0)).collect())
+                        .collect();
+                    let mut tag = "consistent";
+                    if k % 4 == 3 {
+                        tag = "inconsistent";
+                        let (p, q) = (rng.below(r), rng.below(c));
+                        match rng.below(3) {
+                            0 => {
+                                let (mut h, mut w) = (hs[p], ws[q]);
+                                if rng.chance(1, 2) { h = (h + 1 + rng.below(2)) % 3; } else { w = (w + 1 + rng.below(2)) % 3; }
+                                rows[p][q] = random_raw(&mut rng, h, w, 60, false);
+                            }
+                            1 => { rows[p].remove(q); }
+                            _ => { rows[p].clear(); }
+                        }
+                    }
+                    sink.case("hvgrid", grid_json(&rows), grid_case(&rows), &[tag]);
+                    bump(&format!("hvgrid_{}", tag));
+                }
+            }
+        }
+        let b = RawI::from_grid(&[vec![Some(1)]], 1, 1);
+        for rows in [vec![], vec![vec![]], vec![vec![], vec![]], vec![vec![b.clone()], vec![]], vec![vec![], vec![b.clone()]]] {
+            sink.case("hvgrid", grid_json(&rows), grid_case(&rows), &["degenerate"]);
+            bump("hvgrid_degenerate");
         }
     }
     // 4. triplets: all multisets up to length 3 over a 2x2 grid with values {1,-1,2} (ordered
@@ -481,6 +578,10 @@ pub fn replay(sink: &mut CaseSink, case: &Value) {
         "concat" => {
             let bl: Vec<RawI> = inp["blocks"].as_array().unwrap().iter().map(RawI::from_json).collect();
             concat_case(&bl, inp["salt"].as_u64().unwrap() as usize)
+        }
+        "hvgrid" => {
+            let rows: Vec<Vec<RawI>> = inp["rows"].as_array().unwrap().iter().map(|r| r.as_array().unwrap().iter().map(RawI::from_json).collect()).collect();
+            grid_case(&rows)
         }
         "triplets" => triplet_case(inp["m"].as_u64().unwrap() as usize, inp["n"].as_u64().unwrap() as usize, &usize_vec(&inp["I"]), &usize_vec(&inp["J"]), &i64_vec(&inp["V"])),
         "raw" => raw_case(&RawI::from_json(&inp["A"])),
